@@ -101,3 +101,79 @@ pub fn emit(toks: &[&str]) -> String {
     let _ = std::fs::remove_dir_all(&dir);
     format!("{} || {} || totals {} {}", crate::codec::hex(&out), shown, totals.0, totals.1)
 }
+
+/// Runs the real slicec binary ($VH_SLICEC) in a scratch directory with fake generators ($VH_FAKEGEN copied under the given names).
+/// run <dryrun 0|1> <extra opts: -|a;b;c (hex each)> G (<genname>:<hexargs|->:<hexreply|->)* F (<S|R>:<hexname>:<hextext>)*
+///   -> exit=<code|signal> || <gen>:<invoked count>:<stdin hex> ... || stdout hex || stderr hex || outdir listing || dump of the same files compiled in-process
+pub fn run(toks: &[&str]) -> String {
+    use std::process::Command;
+    let slicec = std::env::var("VH_SLICEC").unwrap_or_default();
+    let fakegen = std::env::var("VH_FAKEGEN").unwrap_or_default();
+    let dir = std::env::temp_dir().join(format!("vh-run-{}", std::process::id()));
+    let _ = std::fs::remove_dir_all(&dir);
+    std::fs::create_dir_all(dir.join("gens")).unwrap();
+    std::fs::create_dir_all(dir.join("w")).unwrap();
+    let w = dir.join("w");
+    let mut argv: Vec<String> = Vec::new();
+    if toks[0] == "1" { argv.push("--dry-run".into()); }
+    if toks[1] != "-" { for o in toks[1].split(';') { argv.push(text_of(o)); } }
+    let mut i = 2;
+    let mut gens: Vec<String> = Vec::new();
+    if toks.get(i) == Some(&"G") { i += 1; while i < toks.len() && toks[i] != "F" {
+        let parts: Vec<&str> = toks[i].split(':').collect();
+        let name = parts[0].to_string();
+        let gpath = dir.join("gens").join(&name);
+        if !name.starts_with("gen-missing") {
+            std::fs::copy(&fakegen, &gpath).unwrap();
+            if name.starts_with("gen-notexec") {
+                use std::os::unix::fs::PermissionsExt;
+                std::fs::set_permissions(&gpath, std::fs::Permissions::from_mode(0o644)).unwrap();
+            }
+        }
+        if parts.len() > 2 && parts[2] != "-" { std::fs::write(dir.join("gens").join(format!("{name}.reply")), crate::codec::unhex(parts[2])).unwrap(); }
+        let args = if parts.len() > 1 && parts[1] != "-" { format!(",{}", text_of(parts[1])) } else { String::new() };
+        argv.push(format!("--generator={}{}", gpath.display(), args));
+        gens.push(name);
+        i += 1;
+    } }
+    let mut options = SliceOptions::default();
+    if toks.get(i) == Some(&"F") { i += 1; while i < toks.len() {
+        let parts: Vec<&str> = toks[i].splitn(3, ':').collect();
+        let name = text_of(parts[1]);
+        if let Some(parent) = std::path::Path::new(&name).parent() { let _ = std::fs::create_dir_all(w.join(parent)); }
+        std::fs::write(w.join(&name), crate::codec::unhex(parts[2])).unwrap();
+        if parts[0] == "S" { argv.push(name.clone()); options.sources.push(name); } else { argv.push("-R".into()); argv.push(name.clone()); options.references.push(name); }
+        i += 1;
+    } }
+    let out = Command::new(&slicec).args(&argv).current_dir(&w).env("FAKEGEN_DIR", dir.join("gens")).env("NO_COLOR", "1").output();
+    let (status, so, se) = match out {
+        Ok(o) => (match o.status.code() { Some(c) => format!("exit={c}"), None => "exit=signal".to_string() }, o.stdout, o.stderr),
+        Err(e) => (format!("exit=spawnfail:{e}"), vec![], vec![]),
+    };
+    let ginfo: Vec<String> = gens.iter().map(|g| {
+        let inv = std::fs::read_to_string(dir.join("gens").join(format!("{g}.invoked"))).map(|s| s.lines().count()).unwrap_or(0);
+        let stdin = std::fs::read(dir.join("gens").join(format!("{g}.stdin"))).map(|b| crate::codec::hex(&b)).unwrap_or("none".into());
+        format!("{g}:{inv}:{stdin}")
+    }).collect();
+    // what the working directory contains afterwards (generated files)
+    let mut listing: Vec<String> = Vec::new();
+    fn walk(base: &std::path::Path, p: &std::path::Path, out: &mut Vec<String>) {
+        if let Ok(rd) = std::fs::read_dir(p) { for e in rd.flatten() {
+            let path = e.path();
+            if path.is_dir() { walk(base, &path, out); } else {
+                let rel = path.strip_prefix(base).unwrap().to_string_lossy().to_string();
+                let data = std::fs::read(&path).unwrap_or_default();
+                out.push(format!("{}={}", hexs(&rel), crate::codec::hex(&data)));
+            }
+        } }
+    }
+    walk(&w, &w, &mut listing);
+    listing.sort();
+    // the same files compiled in-process, for the AST dump
+    std::env::set_current_dir(&w).unwrap();
+    let state = slicec::compile_from_options(&options);
+    let files: Vec<String> = state.files.iter().map(|f| format!("{} {}", if f.is_source { "S" } else { "R" }, crate::dump::file(f))).collect();
+    let _ = std::env::set_current_dir("/");
+    let _ = std::fs::remove_dir_all(&dir);
+    format!("{} || {} || {} || {} || {} || {}", status, ginfo.join(" "), crate::codec::hex(&so), crate::codec::hex(&se), listing.join(" "), files.join(" ;; "))
+}
